@@ -12,14 +12,21 @@ The region maps that stratify the offsets are computed by the extracted Coq mode
 (Codec/Regions.v, `rg` commands of driver/skv_driver) from the layout the implementation reports
 (facade surrealkv::verif::damage, `dmg layout`); model and implementation must agree on every block
 position and the model's regions must tile the real file length exactly.
+
+Directed damage differential of the value log behind the block cache (finding F41, repaired): tools/vlib/c11.py
+cut_differential — a value log of its own is appended to, closed, cut at an entry boundary / inside an entry / inside
+the header, opened again, appended to from the cut position; the new pointers are read (fills the block cache), then
+the OLD pointers: crate vs extracted Lsm/Vlog.v (generated cache rule) vs VLog::get's file path played in python.  An
+old pointer that is answered with the value of the entry now at its offset is a failing input of class
+vlog_truncated_wrong_data (the class of F41: listed as fixed, so it is reported as a VIOLATION).
 """
 import json, os, re, select, shutil, subprocess, sys, time, threading
 from concurrent.futures import ThreadPoolExecutor
 from . import common as C
 
 PID = "C16"
-PARAM_SECTIONS = ["c16", "wal", "table"]
-MODEL_TARGETS = ["theories/Codec/Regions.vo"]
+PARAM_SECTIONS = ["c16", "wal", "table", "vlog"]
+MODEL_TARGETS = ["theories/Codec/Regions.vo", "theories/Lsm/VlogInst.vo"]
 TRUSTED = [
     "E6 (tools/vlib/c16.py + harness/src/dmg.rs): copies of closed database directories on /dev/shm, byte alterations applied by the harness, "
     "child process watched in lock step with a per-case timeout and an address-space limit (ulimit -v)",
@@ -48,7 +55,7 @@ WATCHED_SITES = [
     "src/levels/level.rs Levels::decode Vec::with_capacity(table_count as usize) (F37); src/levels/mod.rs vec![0u8; snapshot_len]; level count 0 (F38)",
     "src/wal/reader.rs &self.buffer[offset..offset + HEADER], self.buffer[offset] (compression byte), &self.buffer[offset..offset + length]",
     "src/batch.rs Batch::decode data[pos], data[pos..pos + key_len], data[pos..pos + value_len], &data[pos..pos + VALUE_POINTER_SIZE], Vec::with_capacity(count) (behind the record checksum)",
-    "src/vlog.rs VLog::get vec![0u8; total_size], entry_data_vec[0..8], entry_data_vec[crc_start..crc_start+4]; VLogFileHeader::decode; block-cache hit returns before any check (F41)",
+    "src/vlog.rs VLog::get vec![0u8; total_size], entry_data_vec[0..8], entry_data_vec[crc_start..crc_start+4]; VLogFileHeader::decode; a block-cache hit is served only when the cached checksum and the value length equal the pointer's (F41, fixed: before the repair a hit returned before any check)",
     "src/compression.rs / snap::raw::Decoder::decompress_vec on verified payloads",
 ]
 
@@ -56,10 +63,13 @@ LEVEL_NOTE = ("partial by nature: unconditional = region coverage (every byte of
               "implementation's layout on every generated file) and totality (no panic / abort / hang on any explored alteration outside the recorded "
               "findings); detection of an altered payload / length / handle / footer relies on CRC-32 of the (possibly redirected) read and carries the "
               "no-collision hypothesis (probability 1 - 2^-32; certain for bursts <= 32 bits in a fixed-length payload); fields without checksum coverage "
-              "are recorded as findings F33-F41 (filter block, manifest, SetCompressionType records, earlier log segments, truncated value log)")
+              "are recorded as findings F33-F40 (filter block, manifest, SetCompressionType records, earlier log segments); F41 (a truncated value log that is "
+              "appended to again + the block cache served another key's value) is fixed: C16_vlog_damaged_reads_checked covers every damage history of the "
+              "value-log directory behind the cache, for the generated cache rule")
 
 SHM = "/dev/shm" if os.path.isdir("/dev/shm") else "/tmp"
 CASE_TIMEOUT = 20.0
+CONFIRM_TIMEOUT = 240.0   # second chance of a silent case before it is called a hang
 VMEM_KB = 6000000
 
 
@@ -666,7 +676,7 @@ def expected_prefix(db, case):
 def classify(db, case, st, ans):
     """-> (outcome, detail)"""
     if st == "hang":
-        return "HANG", "no answer within %.0f s" % CASE_TIMEOUT
+        return "HANG", "no answer within %.0f s, and again none within %.0f s in a fresh child" % (CASE_TIMEOUT, CONFIRM_TIMEOUT)
     if st == "dead":
         return "CRASH", "child process died (%s)" % ans
     f = ans.split("\t")
@@ -773,6 +783,13 @@ def run_cases(db, cases, root, wid):
             opts = db.rec["opts"] + (",abs=1" if c["mode"] == "abs" else "")
             line = "dmg case %s %s %s %s %s %d %d 0" % (db.path, dst, opts, c["rel"], c["kind"], c["off"], c["val"])
             st, a = ch.ask(line)
+            if st == "hang":
+                # a silent child can be a slow machine (other checks running): the verdict HANG is given only when the
+                # case, run again on its own in a fresh child, is still silent after a much longer wait
+                ch.kill()
+                ch = Child()
+                set_readset(ch, db.rs)
+                st, a = ch.ask(line, timeout=CONFIRM_TIMEOUT)
             oc, det = classify(db, c, st, a)
             out.append((c, oc, det, a if st == "ok" else st + " " + a))
             if st != "ok":
@@ -887,15 +904,32 @@ def explore(ctx):
             else:
                 res["violations"].append((desc, text))
                 n_viol += len(items)
-        ncases = sum(len(r) for r in outs)
+        # directed damage differential of the value log behind the block cache (F41): crate vs model vs python file path
+        from . import c11 as VP
+        cv, cd, cst = VP.cut_differential(ctx, PID)
+        res["disagreements"] += cd
+        if cv:
+            cv.sort(key=lambda x: len(x[1]))
+            cls = "vlog_truncated_wrong_data"
+            desc = "%s: value log of its own (vp engine): %s   [%d failing reads of this class]" % (cls, cv[0][0], len(cv))
+            if cls in known:
+                res["known"].append("%s (%s) e.g. %s" % (cls, known[cls][:160], desc[:300]))
+                C.write_replay(PID, "known_%s_vp.txt" % cls, cv[0][1])
+            else:
+                res["violations"].append((desc, cv[0][1]))
+            by_class.setdefault(cls, [])
+        ncases = sum(len(r) for r in outs) + cst["commands"]
         res["coverage"] = {
+            "vlog_cut_differential": cst,
             "evaluations": ncases,
             "distinct_nontrivial": sum(1 for k, v in dist.items() if v),
             "rule": "database recipes (%s) built through the E2 commands; every file altered in a copy: %s; non-trivial = a (file kind, region class) "
                     "pair that was altered at least once" % (", ".join(r["name"] for r in recs),
                                                              "every offset x {8 bit flips, 0x00, 0xff, +1} for databases <= 6000 bytes, stratified otherwise"
                                                              if tier == "thorough" else "stratified sample of offsets of every region instance x {bit flip, 0x00, 0xff, +1} "
-                                                             "(all 11 alterations on length / count / type / handle bytes)") + "; truncations at every region boundary",
+                                                             "(all 11 alterations on length / count / type / handle bytes)") + "; truncations at every region boundary; plus the directed damage differential of the "
+                    "value log behind the block cache (append, cut at entry boundaries / inside entries / inside the header, reopen, append from the cut position, read new then OLD "
+                    "pointers: crate vs extracted model vs python file path)",
             "programs": len(dbs),
             "database_bytes": total_bytes,
             "input_distribution_per_region_class": dict(sorted(dist.items())),
